@@ -13,6 +13,15 @@ open PcbV
                                     protNextIndex / unprotNextIndex; reply `ok <decimal,decimal,…>`
                                     (decimal, not hex: a wrong step may leave the byte range)
     supported                       the `_supported` flags, in the order cycle, unext, pnext, unprot, prot, idiv, imod
+    ineg a0 a1 | iadd a0 a1 b0 b1 | igt a0 a1 b0 b1 (reply ok 0/1)          numbers.Integer byte code
+    kbri buflen ring index | kblen buflen start ring | kbstart start ring | kbstop buflen start ring |
+    kbfull buflen start ring (ok 0/1)                                          KeyboardBuffer
+    cga addr seg pageSize bankSize bytesPerRow bpp interleave | ega addr seg pageSize bytesPerRow |
+    tandy6 addr seg pageSize bankSize bytesPerRow   (reply ok page,x,y) | cok page x y np w h (ok 0/1)
+    vpwh r0..r3 (ok w,h) | vpbounds abs r0..r3 (ok 4 ints) | vpconv abs r0..r3 x y | vpcontains abs r0..r3 x y |
+    vpmid abs r0..r3 | vpcut abs r0..r3 maxW maxH x y        (abs = 0/1)     GraphicsViewPort
+    srec nameLen | arec nameLen ndims                                         record sizes
+    supported2                      flags of the functions above, in the order of `flags2`
 -/
 
 def showI (n : Int) : String := "ok " ++ toString n
@@ -23,7 +32,59 @@ def stream (step : Int → Int → Int) (next : Int → Int) : Int → Bytes →
 
 def showInts (l : List Int) : String := if l.isEmpty then "-" else ",".intercalate (l.map toString)
 
-def handle : List String → String
+def showB (b : Bool) : String := if b then "ok 1" else "ok 0"
+def showL (l : List Int) : String := "ok " ++ ",".intercalate (l.map toString)
+
+open PcbV.Gen.Translated in
+def flags2 : List Bool := [inegCore_supported, iaddCore_supported, igtCore_supported,
+  kbRingIndex_supported, kbLength_supported, kbStart_supported, kbStop_supported, kbFull_supported,
+  cgaCoordsPage_supported && cgaCoordsX_supported && cgaCoordsY_supported,
+  egaCoordsPage_supported && egaCoordsX_supported && egaCoordsY_supported,
+  tandy6CoordsPage_supported && tandy6CoordsX_supported && tandy6CoordsY_supported,
+  coordOk_supported,
+  vpWidth_supported && vpHeight_supported,
+  vpBounds0_supported && vpBounds1_supported && vpBounds2_supported && vpBounds3_supported,
+  vpConvert0_supported && vpConvert1_supported, vpContains_supported,
+  vpMid0_supported && vpMid1_supported, vpCutoff0_supported && vpCutoff1_supported,
+  scalarRecordSize_supported, arrayRecordSize_supported]
+
+open PcbV.Gen.Translated in
+/-- the ops added with the second batch of translated functions: all arguments are ints -/
+def handle2 (op : String) (a : List Int) : Option String :=
+  match op, a with
+  | "ineg", [a0, a1] => some (showI (inegCore a0 a1))
+  | "iadd", [a0, a1, b0, b1] => some (showI (iaddCore a0 a1 b0 b1))
+  | "igt", [a0, a1, b0, b1] => some (showB (igtCore a0 a1 b0 b1))
+  | "kbri", [n, r, i] => some (showI (kbRingIndex n r i))
+  | "kblen", [n, s, r] => some (showI (kbLength n s r))
+  | "kbstart", [s, r] => some (showI (kbStart s r))
+  | "kbstop", [n, s, r] => some (showI (kbStop n s r))
+  | "kbfull", [n, s, r] => some (showB (kbFull n s r))
+  | "cga", [ad, sg, ps, bk, br, bp, il] =>
+    some (showL [cgaCoordsPage ad sg ps bk br bp il, cgaCoordsX ad sg ps bk br bp il, cgaCoordsY ad sg ps bk br bp il])
+  | "ega", [ad, sg, ps, br] => some (showL [egaCoordsPage ad sg ps br, egaCoordsX ad sg ps br, egaCoordsY ad sg ps br])
+  | "tandy6", [ad, sg, ps, bk, br] =>
+    some (showL [tandy6CoordsPage ad sg ps bk br, tandy6CoordsX ad sg ps bk br, tandy6CoordsY ad sg ps bk br])
+  | "cok", [pg, x, y, np, w, h] => some (showB (coordOk pg x y np w h))
+  | "vpwh", [r0, r1, r2, r3] => some (showL [vpWidth r0 r1 r2 r3, vpHeight r0 r1 r2 r3])
+  | "vpbounds", [ab, r0, r1, r2, r3] =>
+    let b := ab != 0
+    some (showL [vpBounds0 b r0 r1 r2 r3, vpBounds1 b r0 r1 r2 r3, vpBounds2 b r0 r1 r2 r3, vpBounds3 b r0 r1 r2 r3])
+  | "vpconv", [ab, r0, r1, r2, r3, x, y] =>
+    let b := ab != 0
+    some (showL [vpConvert0 b r0 r1 r2 r3 x y, vpConvert1 b r0 r1 r2 r3 x y])
+  | "vpcontains", [ab, r0, r1, r2, r3, x, y] => some (showB (vpContains (ab != 0) r0 r1 r2 r3 x y))
+  | "vpmid", [ab, r0, r1, r2, r3] =>
+    let b := ab != 0
+    some (showL [vpMid0 b r0 r1 r2 r3, vpMid1 b r0 r1 r2 r3])
+  | "vpcut", [ab, r0, r1, r2, r3, mw, mh, x, y] =>
+    let b := ab != 0
+    some (showL [vpCutoff0 b r0 r1 r2 r3 mw mh x y, vpCutoff1 b r0 r1 r2 r3 mw mh x y])
+  | "srec", [n] => some (showI (scalarRecordSize n))
+  | "arec", [n, d] => some (showI (arrayRecordSize n d))
+  | _, _ => none
+
+def handle1 : List String → String
   | [op, a] =>
     match op with
     | "pstream" | "ustream" =>
@@ -61,5 +122,16 @@ def handle : List String → String
       Gen.Translated.protStep_supported, Gen.Translated.idivCore_supported,
       Gen.Translated.imodCore_supported].map fun b => if b then '1' else '0')
   | _ => "bad-op"
+
+def handle : List String → String
+  | ["supported2"] => "ok " ++ String.ofList (flags2.map fun b => if b then '1' else '0')
+  | op :: args =>
+    match args.mapM String.toInt? with
+    | some a =>
+      (match handle2 op a with
+      | some r => r
+      | none => handle1 (op :: args))
+    | none => handle1 (op :: args)
+  | l => handle1 l
 
 end PcbV.Drv.Translated
